@@ -118,6 +118,33 @@ func runC12(c *mon.Ctx) {
 			}
 		}
 
+		if co, ok := f.Outlines.(*cff.Outlines); ok && k.Index/3%4 == 1 && o.FixedPitch == 0 {
+			// fonts constructed in memory can have fractional advance widths
+			// (not in fonts whose widths are within two units of each other:
+			// whether those are fixed-pitch is decided at the half unit)
+			lo, hi := math.Inf(1), math.Inf(-1)
+			for _, g := range co.Glyphs {
+				if g.Width != 0 {
+					lo, hi = math.Min(lo, g.Width), math.Max(hi, g.Width)
+				}
+			}
+			for i, g := range co.Glyphs {
+				if g.Width < 1 || g.Width >= 32000 || hi-lo < 2 {
+					continue
+				}
+				switch k.Index / 12 % 3 {
+				case 0: // every second glyph, mixed fractions
+					if i%2 == 1 {
+						g.Width += []float64{0.25, 0.5, 0.75}[i/2%3]
+					}
+				case 1: // all glyphs half a unit wider
+					g.Width += 0.5
+				default:
+					g.Width += 0.75
+				}
+			}
+		}
+
 		// ---- queries against outlines and each other ----
 		var boxes []funit.Rect16
 		var widths, widthsPDF []float64
@@ -310,7 +337,17 @@ func runC12(c *mon.Ctx) {
 			} else {
 				adv, lsb = rdU16(hmtx.Data, 4*(numH-1)), rdI16(hmtx.Data, 4*numH+2*(i-numH))
 			}
-			if adv != iw[i] {
+			if widths[i] != math.Trunc(widths[i]) {
+				// a fractional width (fonts constructed in memory): hmtx holds
+				// one of the two neighbouring integers; the derived fields
+				// below are judged against what hmtx says
+				if math.Abs(float64(adv)-widths[i]) >= 1 {
+					k.Fail("mismatch", "derived:hmtx-advance", "glyph %d: hmtx advance %d, font width %v (numberOfHMetrics=%d, %s)", i, adv, widths[i], numH, desc)
+					return
+				}
+				iw[i] = adv
+				k.Class("hmtx:fractional-width")
+			} else if adv != iw[i] {
 				k.Fail("mismatch", "derived:hmtx-advance", "glyph %d: hmtx advance %d, font width %d (numberOfHMetrics=%d, %s)", i, adv, iw[i], numH, desc)
 				return
 			}
@@ -378,7 +415,9 @@ func runC12(c *mon.Ctx) {
 		}
 		if cnt > 0 {
 			avg := rdI16(os2T.Data, 2)
-			if math.Abs(float64(avg)-float64(sum)/float64(cnt)) > 1 {
+			// the average of the non-zero advance widths in the file, as an
+			// integer: rounded either way, it is less than one unit away
+			if math.Abs(float64(avg)-float64(sum)/float64(cnt)) >= 1 {
 				k.Fail("mismatch", "derived:xAvgCharWidth", "xAvgCharWidth=%d, mean of non-zero widths %.3f (%s)", avg, float64(sum)/float64(cnt), desc)
 			}
 		}
@@ -399,5 +438,5 @@ func runC12(c *mon.Ctx) {
 			k.Sample(desc + fmt.Sprintf(" advanceWidthMax=%d numberOfHMetrics=%d", maxAdv, numH))
 		}
 	})
-	c.Require("derived-fields:glyf", "derived-fields:cff", "derived-fields:cid", "fixed-pitch=true", "fixed-pitch=false", "first-last-char-checked", "bbox-vs-points:cff", "bbox-vs-points:glyf", "hmtx-tail=0", "hmtx-tail=3", "extreme-side-bearings", "head.modified-unset=true", "head.created-unset=true", "cff:pen-move-without-segment", "bbox-pdf-vs-points:cff")
+	c.Require("derived-fields:glyf", "derived-fields:cff", "derived-fields:cid", "fixed-pitch=true", "fixed-pitch=false", "first-last-char-checked", "bbox-vs-points:cff", "bbox-vs-points:glyf", "hmtx-tail=0", "hmtx-tail=3", "extreme-side-bearings", "head.modified-unset=true", "head.created-unset=true", "cff:pen-move-without-segment", "bbox-pdf-vs-points:cff", "hmtx:fractional-width")
 }
